@@ -494,7 +494,7 @@ func swapAK(cred, cur string) string {
 }
 
 func runC28(args []string) {
-	f := verifx.ParseFlags("c28", args, 500, 4000)
+	f := verifx.ParseFlags("c28", args, 500, 2500)
 	out := verifx.NewOut()
 	l := verifx.SigLoop()
 	defer l.Close()
